@@ -96,6 +96,7 @@ func (r *Router) ServeHTTP(w http.ResponseWriter, req *http.Request) {
 		SetErrorResponse(w, req, http.StatusNotFound, nil)
 		return
 	}
+	verifPoint("route.resolved", req, service.name)
 
 	if service.options.StripPrefix && prefix != rootPath {
 		ctx := context.WithValue(req.Context(), contextKeyRoutingContext, &routingContext{MatchedPrefix: prefix})
@@ -273,18 +274,22 @@ func (r *Router) deployTargetsIntoService(service *Service, targetSlot TargetSlo
 		lb.Dispose()
 		return err
 	}
+	verifPoint("deploy.healthy", service.name, int(targetSlot))
 
 	replaced := service.UpdateLoadBalancer(lb, targetSlot)
+	verifPoint("deploy.lb.updated", service.name, int(targetSlot))
 
 	err = r.installService(service)
 	if err != nil {
 		return err
 	}
+	verifPoint("deploy.installed", service.name, int(targetSlot))
 
 	if replaced != nil {
 		replaced.DrainAll(drainTimeout)
 		replaced.Dispose()
 	}
+	verifPoint("deploy.drained", service.name, int(targetSlot))
 
 	return nil
 }
